@@ -1,1 +1,3 @@
-/-! STUB — property C11 is not built yet. -/
+import Martian.Model.Grpc
+namespace Martian.Props.C11
+end Martian.Props.C11
